@@ -369,6 +369,8 @@ def classify(case, mech, detail, hist):
             whens = [r["when"] for r in hist if r["k"] == "sched"]
             if len(set(whens)) < len(whens):
                 return "C08:equal-scheduled-times"
+        if exc[0] == "UnicodeDecodeError" and case.get("kind") == "prefixchar":
+            return "C08:prefix-then-non-ascii-character"
         if exc[0] == "ValueError" and "identify key" in (exc[1] if len(exc) > 1 else "") and case.get("kind") in ("split", "flood"):
             return "C08:keypress-split-across-arrivals"
         if exc[0] == "ValueError" and "identify key" in (exc[1] if len(exc) > 1 else "") and nonpaste_big(case, hist):
@@ -588,6 +590,51 @@ def run_split(ctx, case):
         if th is not None:
             th.join(5)
     problems += inputq.check(hist, drained=True, concurrent=True)
+    finish_history(ctx, case, hist, problems)
+
+
+PREFIX_KEYS = [b"\x1b", b"\x1b[", b"\x1bO", b"\x1b\x1b", b"\x1b[1", b"\x1b[1;5"]
+
+
+def gen_prefixchar(rng, R):
+    ch = chr(rng.choice([0xE9, 0x416, 0x4E00, 0x20AC, 0x1F600])).encode("utf-8")
+    return {"kind": "prefixchar", "paste_threshold": rng.choice([None, 1, 8]),
+            "pre": burst(rng, R, rng.choice([0, 0, 2, 30])) if rng.random() < .5 else b"",
+            "prefix": rng.choice(PREFIX_KEYS), "char": ch,
+            "post": burst(rng, R, rng.choice([0, 3, 30])) if rng.random() < .6 else b""}
+
+
+def run_prefixchar(ctx, case):
+    """an Escape key / the start of an escape sequence directly followed by a non-ASCII character
+    in the same arrival (Alt+e-acute on a terminal whose Meta sends ESC): valid input; no request
+    raises and every byte comes back once, in order"""
+    R = rig()
+    data = case["pre"] + case["prefix"] + case["char"] + case["post"]
+    R.pty.drain_slave()
+    inp = R.ci.Input(R.pty.stream, keynames="bytes", paste_threshold=case["paste_threshold"])
+    hist, problems = [], []
+    try:
+        with inp:
+            if not R.pty.feed(data):
+                ctx.inconclusive_because("pty did not deliver within 5 s")
+                return
+            hist.append({"k": "write", "data": data, "t": time.monotonic()})
+            idle = 0
+            for _ in range(len(data) + 6):
+                t0 = time.monotonic()
+                try:
+                    ret = describe(inp.send(0.002))
+                except Exception as ex:  # noqa
+                    ret = ("raise", type(ex).__name__, str(ex)[:120])
+                hist.append({"k": "req", "timeout": 0.002, "t0": t0, "t1": time.monotonic(), "w0": 0, "w1": 0, "ret": ret})
+                if ret[0] == "raise":
+                    break
+                idle = idle + 1 if ret[0] == "none" else 0
+                if idle >= 2:
+                    break
+    except Exception as ex:  # noqa
+        problems.append(("raise", {"outside request": repr(ex)}))
+    problems += inputq.check(hist, drained=True)
     finish_history(ctx, case, hist, problems)
 
 
@@ -988,6 +1035,8 @@ def run_case(ctx, case):
         run_buffered(ctx, case)
     elif case["kind"] == "flood":
         run_flood(ctx, case)
+    elif case["kind"] == "prefixchar":
+        run_prefixchar(ctx, case)
     elif case["kind"] == "split":
         run_split(ctx, case)
 
@@ -1012,6 +1061,9 @@ def run(ctx):
     for _ in range(ctx.share(200 if quick else 8000)):
         run_split(ctx, gen_split(rng, R))
         ctx.count("split_keypress_histories")
+    for _ in range(ctx.share(120 if quick else 5000)):
+        run_prefixchar(ctx, gen_prefixchar(rng, R))
+        ctx.count("prefix_then_character_histories")
     for i in range(ctx.share(8 if quick else 400)):
         run_flood(ctx, {"kind": "flood", "size": rng.choice([6000, 20000, 60000]), "mix": i % 2 == 1,
                         "chunks": rng.choice([[4096], [4096], [1000, 4096, 5000], [3, 50, 700, 4096, 65536], [65536]]),
